@@ -1,6 +1,7 @@
 import Sigc.Lemmas.FuelMono
 import Sigc.Lemmas.FuelMonoSpec
-import Sigc.Lemmas.RefineMutual
+import Sigc.Lemmas.FuelLvlStable
+import Sigc.Props.Refine
 /-!
 # Fuel — the fuel argument of the two interpreters is only a device
 
@@ -12,7 +13,15 @@ a result:
 * **monotonicity** — every function of the two mutual blocks, `runTop` and `teardown`: a result `some r`
   obtained with fuel `f` is obtained, unchanged, with every fuel `f' ≥ f`;
 * **independence** — two sufficient fuels give the same result; the text printed by the driver
-  (`runProgram`) does not depend on `defaultFuel` unless it is the fuel notice.
+  (`runProgram`) does not depend on `defaultFuel` unless it is the fuel notice;
+* **termination** — every program of the operation language terminates: for every `P` some fuel suffices for
+  `runTop` (and for the driver's `teardown`), with no hypothesis on `P`.  The argument (`Sigc.Lemmas.FuelTerm*`,
+  `Sigc.Lemmas.FuelLvl*`): nesting of functor bodies is cut at `P.maxdepth`; a chain of forwarded emissions
+  (`make_slot()`) has strictly decreasing levels (the level invariant `LvlInv`: every forwarder held by a slot
+  variable is bounded by the variable's `taint`, every forwarder held by a slot list by the `lvl` of the signal
+  objects sharing the list — preserved by all operations); `nest` functors are structurally smaller; and the walk
+  of an emission stays inside the block `[first, marker]` that the list had when the emission started
+  (`Emit.Frame`), moving one position per step.
 -/
 namespace Sigc.Fuel
 open Sigc.Model
@@ -118,6 +127,64 @@ theorem spec_runProgram_fuel_independent (k1 k2 : Bool) (lines : List String)
     ∀ fuel, defaultFuel ≤ fuel → S.runProgramWith fuel k1 k2 lines = Spec.runProgram k1 k2 lines :=
   fun _ hle => S.runProgramWith_mono hle h
 
+/-! ## termination -/
+
+/-- **every program terminates**: for every program of the operation language some fuel suffices for the
+    interpreter `runTop` (no hypothesis on `P`: any bodies, `maxdepth`, `maxsteps`, mode) -/
+theorem terminates (P : Prog) : ∃ fuel s, runTop fuel P {} P.top = some s := runTop_terminates P
+
+/-- … and the final state is the same for every larger fuel: the run of a program is a well-defined state -/
+theorem terminates_stable (P : Prog) : ∃ fuel s, ∀ f, fuel ≤ f → runTop f P {} P.top = some s :=
+  let ⟨fuel, s, h⟩ := runTop_terminates P
+  ⟨fuel, s, fun _ hle => runTop_mono hle P P.top {} s h⟩
+
+/-- the level invariant behind the termination argument holds in every state a program reaches:
+    every forwarder held by a slot variable forwards to signal objects of a level `≤ taint`, every forwarder
+    held by a slot list forwards strictly below the level of the signal objects that share the list -/
+theorem lvlInv_reachable (fuel : Nat) (P : Prog) (s : St) (h : runTop fuel P {} P.top = some s) : LvlInv s :=
+  (Sigc.Inv.runTop_preservedCore lvlStable.core fuel none P P.top {} s JK.init h).1
+
+/-- **the driver terminates on every program text**: some fuel suffices for `runTop` followed by `teardown`; with it
+    and with every larger fuel the printed text is the same and is not the fuel notice -/
+theorem driver_terminates (lines : List String) :
+    ∃ fuel, ∀ f, fuel ≤ f → runProgramWith f lines ≠ ["MODEL-FUEL"] ∧
+      runProgramWith f lines = runProgramWith fuel lines := by
+  obtain ⟨f0, s, h1⟩ := runTop_terminates (parseProg lines)
+  obtain ⟨t, h2⟩ := Sigc.Refine.Td.teardown_terminates f0 (parseProg lines) s
+  have h1' := runTop_mono (Nat.le_succ f0) _ _ _ _ h1
+  have hne : runProgramWith (f0 + 1) lines ≠ ["MODEL-FUEL"] := by
+    unfold runProgramWith
+    simp only []
+    rw [h1']
+    simp only []
+    rw [h2]
+    simp only []
+    have hsn : ∀ (l : List String) (x : String), l ++ [x] = ["MODEL-FUEL"] → x = "MODEL-FUEL" := by
+      intro l x hx
+      cases l with
+      | nil => simpa using hx
+      | cons a l => cases l <;> simp at hx
+    cases t.err with
+    | none => simp only; intro hx; exact Sigc.Refine.final_ne_fuel _ (hsn _ _ hx)
+    | some e =>
+      simp only
+      intro hx
+      have := congrArg List.length hx
+      simp at this
+  refine ⟨f0 + 1, fun f hle => ?_⟩
+  have e := runProgramWith_mono hle hne
+  exact ⟨by rw [e]; exact hne, e⟩
+
+/-- the specification `S'` (both known findings, the configuration the model refines) terminates on every program,
+    together with its teardown -/
+theorem spec_known_terminates (P : Prog) :
+    ∃ fuel t t', Spec.runTop fuel P { k1 := true, k2 := true } P.top = some t ∧ Spec.teardown fuel P t = some t' := by
+  obtain ⟨f0, s, h1⟩ := runTop_terminates P
+  obtain ⟨s', h2⟩ := Sigc.Refine.Td.teardown_terminates f0 P s
+  have h1' := runTop_mono (Nat.le_succ f0) _ _ _ _ h1
+  obtain ⟨t, t', hr, ht, _⟩ := Sigc.Refine.refines_driver (f0 + 1) P s s' h1' h2
+  exact ⟨f0 + 1, t, t', hr, ht⟩
+
 /-! ## non-vacuity -/
 
 open Sigc.Refine in
@@ -143,5 +210,24 @@ example : ∀ fuel, runProgramWith fuel [] = ["0 final live=0"] := by
   intro fuel
   have h0 : runProgramWith 0 [] = ["0 final live=0"] := by decide +kernel
   rw [runProgramWith_fuel_independent (Nat.zero_le fuel) [] (by rw [h0]; decide), h0]
+
+/-- termination, instantiated: `exProg` (re-entrant emission), and a program that forwards
+    (`make_slot()` of signal 1 connected to signal 2) and calls a slot variable (`exFwd`,
+    `Sigc.Lemmas.FuelLvlStable`) -/
+example : ∃ fuel s, runTop fuel Sigc.Refine.exProg {} Sigc.Refine.exProg.top = some s := terminates _
+
+/-- `exFwd`: body 1 re-emits signal 2 and calls a slot variable forwarding to signal 2, signal 2 forwards to
+    signal 1 whose slot runs body 1 again; the attempt to close the cycle (`connfn 3 1 fwd 2`) is refused
+    (`badorder`); nesting ends at `maxdepth`.  It terminates by the theorem, and with fuel 68 by evaluation (67 is not enough) -/
+example : (∃ fuel s, runTop fuel exFwd {} exFwd.top = some s) ∧ (runTop 68 exFwd {} exFwd.top).isSome = true ∧
+    runTop 67 exFwd {} exFwd.top = none :=
+  ⟨terminates _, by decide +kernel, by decide +kernel⟩
+
+/-- the level invariant on a reachable state of `exFwd` -/
+example : ∀ fuel s, runTop fuel exFwd {} exFwd.top = some s → LvlInv s := fun fuel s h => lvlInv_reachable fuel _ s h
+
+example : ∃ fuel, ∀ f, fuel ≤ f → runProgramWith f ["newG g1 V", "connfn c1 g1 fn:1", "emit g1 5"] ≠ ["MODEL-FUEL"] :=
+  let ⟨fuel, h⟩ := driver_terminates _
+  ⟨fuel, fun f hle => (h f hle).1⟩
 
 end Sigc.Fuel
